@@ -1,16 +1,17 @@
 #!/bin/bash
 # Apply every seeded break of this directory to a scratch worktree of /repo, run the quick check (expects VIOLATION, exit 1)
-# and the repository's own tests that concern the module.  usage: run.sh [jobs] [patch-name ...]
+# and the repository's own tests that concern the module.  usage: [SUITE=0] run.sh [jobs] [patch-name ...]
 set -u
 PROP=C14; DIR=$(cd "$(dirname "$0")" && pwd); WT=/tmp/wt-selfcheck-c14; JOBS=${1:-8}; shift || true
-TESTS="src/grid/tests/test_atomgrid.py src/grid/tests/test_utils.py"; KEXPR="moment or solid or harmonic or dipole or order"
+TESTS="src/grid/tests/test_atomgrid.py src/grid/tests/test_utils.py"; KEXPR="moment or solid_harmonics or regular_solid or dipole or horton_order"
 git -C /repo worktree add --detach $WT HEAD >/dev/null 2>&1 || git -C $WT checkout -- .
 names=${@:-$(cd $DIR && ls *.diff | grep -v '^candidate_fix' | sed 's/\.diff$//')}
 for n in $names; do
   git -C $WT checkout -- . ; git -C $WT apply $DIR/$n.diff || { echo "$n: PATCH DOES NOT APPLY"; continue; }
   out=$(cd /verif && GRID_REPO=$WT ./check $PROP --tier quick --jobs $JOBS 2>&1); rc=$?
   clauses=$(echo "$out" | grep -A1 '^VIOLATION' | grep -o 'clause=[^ ]*' | sort | uniq -c | awk '{printf "%s(x%s) ", $2, $1}')
-  suite=$(cd $WT && PYTHONPATH=$WT/src timeout 1500 /venv/bin/python -m pytest -q -x -p no:cacheprovider $TESTS -k "$KEXPR" -n 4 2>&1 | tail -1)
+  suite="(skipped: SUITE=0)"
+  [ "${SUITE:-1}" = 1 ] && suite=$(cd $WT && PYTHONDONTWRITEBYTECODE=1 PYTHONPATH=$WT/src timeout 3000 /venv/bin/python -m pytest -q -x -p no:cacheprovider $TESTS -k "$KEXPR" -n ${SUITE_JOBS:-4} 2>&1 | tail -1)
   echo "$n | check rc=$rc | $clauses| suite: $suite"
 done
 git -C $WT checkout -- . ; git -C /repo worktree remove --force $WT
